@@ -15,6 +15,7 @@ import subprocess
 from ..core import LineProc, hx, unhx, parallel_map, sha
 
 DRIVERS = ["drv_wrap"]
+GENERATED = ["WrapConsts", "WrapMaxLineLength", "Ingest"]
 
 ZW = "​"
 WIDE = "日本語中文字漢字東京"
@@ -694,6 +695,165 @@ def judge_panels(rep, case, req, a, m):
             viol(rep, "panels:widths", f"panel widths {l_}+{r_} for --width {case['width']}", dict(case, got=a))
 
 
+# ------------------------------------------------------------------ Config::max_line_length in side-by-side mode
+
+WML_ARGS = ["unlimited", "∞", "inf", "infinity", "0", "1", "2", "3", "5", "9", "40"]
+MLL_ARGS = [0, 1, 2, 19, 20, 40, 100, 299, 300, 301, 3000]
+
+
+def wml_rows(arg):
+    """`--wrap-max-lines` as documented: `unlimited`, `∞`, `inf…` = no limit (None), else the number of
+    *additional* rows."""
+    return None if (arg in ("∞", "unlimited") or arg.startswith("inf")) else int(arg)
+
+
+def term_width(hook):
+    """The terminal width the implementation sees (a fact of the environment: stdout is a pipe)."""
+    a = hook.ask(["wrap.panels " + hx("--side-by-side")], timeout=120)[0]
+    return int(a.split()[3]) if a.startswith("ok") and len(a.split()) > 3 else None
+
+
+def opt_value(args, name):
+    v = None
+    for i, a in enumerate(args):
+        if a == name and i + 1 < len(args):
+            v = args[i + 1]
+        elif a.startswith(name + "="):
+            v = a[len(name) + 1:]
+    return v
+
+
+def long_line(rng, cols, kind):
+    """A hunk line body of exactly `cols` display columns (ASCII = 1, CJK = 2), no blank at either end."""
+    out, w = [], 0
+    while w < cols:
+        left = cols - w
+        if kind != "ascii" and left >= 2 and rng.random() < (0.9 if kind == "cjk" else 0.25):
+            out.append(rng.choice("日本語中文字漢東京"))
+            w += 2
+        else:
+            mid = 0 < w < cols - 1
+            out.append(" " if (mid and out[-1] != " " and rng.random() < 0.12) else rng.choice("abcdefghijklmnopqrstuvwxyz_0123456789(){};=."))
+            w += 1
+    return "".join(out)
+
+
+def maxlen_args(case):
+    return ((["--side-by-side"] if case["sbs"] else []) + ["--wrap-max-lines", case["wml"], "--max-line-length", str(case["mll"])]
+            + (["--width", str(case["width"])] if case["width"] else []))
+
+
+def maxlen_probes(rng, case, T):
+    """Input lines that, by the statement of the property, must pass `ingest_line` unchanged under this
+    configuration: [(line, class)]."""
+    n, mll, W = wml_rows(case["wml"]), case["mll"], case["width"] or T
+    probes = []
+    if mll > 0:
+        probes.append(("+" + long_line(rng, mll - 1, "ascii"), "within-max-line-length"))
+    else:
+        probes.append(("+" + long_line(rng, rng.choice([3001, 5000, 9000]), "mixed"), "max-line-length-0"))
+    if not case["sbs"]:
+        return probes
+    if n is None:
+        for cols in sorted({mll + 1, 2 * mll + 7, max(mll, T // 2) + rng.randrange(1, 50), 3001 + rng.randrange(0, 2000)}):
+            probes.append(("+-"[rng.randrange(2)] + long_line(rng, cols, "ascii"), "unlimited-wrap"))
+        probes.append((" " + long_line(rng, mll + 40, "cjk"), "unlimited-wrap"))
+    elif n >= 1 and T // 2 >= 2:
+        rows = n + 1
+        if W <= T:
+            # the widest text area a side can have: right panel of an odd width with the ANSI fill, no gutter
+            lw, cls = W // 2 + W % 2, "fits-rows"
+        else:
+            # view wider than the terminal: a text area certainly available (panel minus a generous gutter)
+            lw, cls = max(W // 2 - 10, 2), "fits-rows:view-wider-than-terminal"
+        cap = rows * (lw - 1) + 1      # every row but the last ends with the one-column wrap symbol
+        probes.append(("+" + long_line(rng, cap, "ascii"), cls))
+        probes.append(("-" + long_line(rng, cap, "cjk"), cls))
+        probes.append((" " + long_line(rng, rng.randrange(max(1, cap // 2), cap + 1), "mixed"), cls))
+    return probes
+
+
+MAXLEN_SIG = {"unlimited-wrap": "sbs:unlimited-wrap-truncated:ingest",
+              "fits-rows": "sbs:line-that-fits-rows-truncated:ingest",
+              "fits-rows:view-wider-than-terminal": "sbs:line-that-fits-rows-truncated:ingest:view-wider-than-terminal",
+              "within-max-line-length": "ingest:line-within-max-line-length-truncated",
+              "max-line-length-0": "ingest:truncated-with-max-line-length-0"}
+
+
+def judge_maxlen(rep, case, answers, m):
+    """answers: [cfg, machine.ingest_cfg, machine.ingest …] of the implementation; m: the model's value."""
+    args = case["args"]
+    rep.case(key=("maxlen", tuple(args)), nontrivial=case["sbs"] and wml_rows(case["wml"]) != 0,
+             sample=dict(op="maxlen", args=args, impl=answers[1]) if case["sbs"] and case["mll"] in (20, 300) else None)
+    rep.count("maxlen:" + ("not-side-by-side" if not case["sbs"] else "rows=" + {None: "unlimited", 0: "1"}.get(wml_rows(case["wml"]), "n")))
+    if answers[0].startswith(("PANIC", "DIED")):
+        viol(rep, "panic:config-from:wrap-options", "building the Config failed: " + answers[0][:120],
+             dict(case, got=answers[0]))
+        return
+    if not answers[1].startswith("ok "):
+        rep.count("maxlen:hook-op-missing-or-failed")
+        return
+    eff = int(answers[1].split()[1])
+    if m is not None:
+        rep.corr_case("wrap.maxlen", m == "ok %d" % eff, dict(case, impl=answers[1], model=m))
+    for (line, cls), a in zip(case["probes"], answers[2:]):
+        rep.count("maxlen:probe:" + cls)
+        if not a.startswith("ok "):
+            viol(rep, "panic:ingest_line", "ingest_line failed: " + a[:80], dict(case, line=line, got=a))
+            continue
+        raw = unhx(a.split(" ")[1]).decode("utf-8", "replace")
+        if raw != line:
+            k = next((j for j in range(min(len(raw), len(line))) if raw[j] != line[j]), min(len(raw), len(line)))
+            viol(rep, MAXLEN_SIG[cls],
+                 "delta %s: an input line of %d columns (%d bytes) is cut at column %d before anything is wrapped "
+                 "(Config::max_line_length = %d)" % (" ".join(args), 1 + sum(2 if ord(ch) > 0x2e7f else 1 for ch in line[1:]),
+                                                     len(line.encode()), k, eff),
+                 dict(op="maxlen", args=args, sbs=case["sbs"], wml=case["wml"], mll=case["mll"], width=case["width"],
+                      term_width=case["term_width"], probes=[[line, cls]], line=line, got=raw[-40:], max_line_length=eff))
+
+
+def maxlen_requests(case):
+    return (["cfg " + " ".join(hx(x) for x in case["args"]), "machine.ingest_cfg"]
+            + ["machine.ingest " + hx(l) for l, _ in case["probes"]])
+
+
+def maxlen_model_request(case):
+    n = wml_rows(case["wml"])
+    # decorations_width: Fixed(--width) / Fixed(terminal width) without --width
+    return "wrap.maxlen %d %s %d %d %d" % (1 if case["sbs"] else 0, "-" if n is None else n, case["mll"], case["term_width"],
+                                           case["width"] or case["term_width"])
+
+
+def part_maxlen(ctx, rep, hook, mdl):
+    """`Config::max_line_length` (what `ingest_line` truncates to) for --side-by-side x --wrap-max-lines x
+    --max-line-length x --width: model vs implementation, and the property on probe lines."""
+    rng = ctx.rng
+    T = term_width(hook)
+    if T is None:
+        rep.count("maxlen:hook-op-missing-or-failed")
+        return
+    rep.notes["available_terminal_width"] = T
+    combos = [(True, w, m, None) for w in WML_ARGS for m in MLL_ARGS]
+    widths = [max(T // 2, 12), T - 1, T, T + 1, 2 * T, 5 * T + 1]
+    for _ in range(ctx.n(130, 2500)):
+        combos.append((rng.random() < 0.85, rng.choice(WML_ARGS + [str(rng.randrange(0, 30))]),
+                       rng.choice(MLL_ARGS + [rng.randrange(0, 700)]), rng.choice([None] + widths + [rng.randrange(12, 3 * T)])))
+    cases, reqs, sticky, spans = [], [], [], []
+    for sbs, wml, mll, width in combos:
+        case = dict(op="maxlen", sbs=sbs, wml=wml, mll=mll, width=width, term_width=T)
+        case["args"] = maxlen_args(case)
+        case["probes"] = maxlen_probes(rng, case, T)
+        r = maxlen_requests(case)
+        sticky.append(len(reqs))
+        spans.append((len(reqs), len(reqs) + len(r)))
+        reqs += r
+        cases.append(case)
+    impl = hook.ask(reqs, timeout=ctx.n(120, 900), sticky=sticky)
+    model = mdl.ask([maxlen_model_request(c) for c in cases], timeout=300) if mdl else [None] * len(cases)
+    for case, (a, b), m in zip(cases, spans, model):
+        judge_maxlen(rep, case, impl[a:b], m)
+
+
 # ------------------------------------------------------------------ the real binary, --side-by-side
 
 DELIM = "⡇"
@@ -888,6 +1048,51 @@ def part_binary(ctx, rep, seg):
             extra += ["--tabs", rng.choice(["2", "4"])]
         add(diff, ext, kind, width, wml, extra, syms, markers)
 
+    # long hunk lines x --max-line-length x wrap limits: the input is cut at Config::max_line_length *before* it is
+    # wrapped, so with unlimited rows nothing may be cut and with N rows nothing the N rows can show
+    T = term_width(seg.hook) or 80
+    for _ in range(ctx.n(70, 2500)):
+        wml = rng.choice(["unlimited", "unlimited", "∞", "inf", "1", "2", "4"])
+        mll = rng.choice([None, 0, 20, 40, 100, 100, 250])
+        markers = rng.random() < 0.2
+        lo = 2 * (4 + 1 + (1 if markers else 0) + 8)
+        r = rng.random()
+        if wml_rows(wml) is None:
+            width = rng.randrange(lo, 150)
+        elif r < 0.85:
+            width = rng.randrange(lo, T + 1)              # the view is not wider than the terminal
+        else:
+            width = rng.randrange(T + 1, 3 * T)           # wider than the terminal (a pipe counts as 80 columns)
+        lw = width // 2 - 5 - (1 if markers else 0)
+        base = mll if mll is not None else 3000
+        kind = rng.choice(["ascii", "ascii", "mixed", "cjk"])
+        if wml_rows(wml) is None:
+            if mll is None and rng.random() < 0.7:
+                base, extra_ml = 300, ["--max-line-length", "300"]    # (keeps most runs short; the default 3000 is tried too)
+            else:
+                extra_ml = [] if mll is None else ["--max-line-length", str(mll)]
+            cols = [base + rng.randrange(0, 3), base + rng.randrange(3, 200), rng.randrange(max(base // 2, 1), 2 * base + 60)]
+        else:
+            extra_ml = [] if mll is None else ["--max-line-length", str(mll)]
+            cap = (wml_rows(wml) + 1) * (lw - 1) + 1
+            cols = [cap, cap - rng.randrange(0, 4), cap + rng.randrange(1, 80), rng.randrange(max(cap // 2, 1), cap + 40)]
+        a_, b_ = long_line(rng, max(rng.choice(cols), 1), kind), long_line(rng, max(rng.choice(cols), 1), kind)
+        shape = rng.randrange(4)
+        body = [("-", a_), ("+", b_)] if shape == 0 else [(" ", a_), ("+", b_)] if shape == 1 else \
+            [("-", a_), (" ", "short")] if shape == 2 else [(" ", "ctx"), ("-", a_), ("+", a_[:len(a_) // 2] + "X" + a_[len(a_) // 2:]), (" ", b_)]
+        o = rng.randrange(1, 90)
+        oc, nc = sum(1 for t, _ in body if t in " -"), sum(1 for t, _ in body if t in " +")
+        diff = "\n".join(["diff --git a/f.txt b/f.txt", "index 1111111..2222222 100644", "--- a/f.txt", "+++ b/f.txt",
+                          f"@@ -{o},{oc} +{o},{nc} @@"] + [t + x for t, x in body]) + "\n"
+        extra = list(extra_ml)
+        if rng.random() < 0.3:
+            extra += ["--line-fill-method", rng.choice(["spaces", "ansi"])]
+        if markers:
+            extra += ["--keep-plus-minus-markers"]
+        add(diff, "txt", kind, width, wml, extra, DEFAULT_SYMS, markers, gen="long-line-x-max-line-length")
+    for c_ in cases:
+        c_["term_width"] = T
+
     def one(case):
         args = ["--no-gitconfig", "--side-by-side", "--width", str(case["width"]),
                 "--line-numbers-left-format", "{nm:>4}" + DELIM, "--line-numbers-right-format", "{np:>4}" + DELIM,
@@ -951,7 +1156,7 @@ def oracle_binary(ctx, rep, seg, case, rc, err, rows):
     width = case["width"]
     half = width // 2
     lwl, lwr = side_text_widths(case)
-    replay = dict(op=case["op"], args=case["args"], diff=case["diff"], width=width)
+    replay = dict(op=case["op"], args=case["args"], diff=case["diff"], width=width, term_width=case.get("term_width"))
     body_l = [x for _, _, body in case["hunks"] for t, x in body if t in " -"]
     body_r = [x for _, _, body in case["hunks"] for t, x in body if t in " +"]
     tw = tab_width(case)
@@ -1001,7 +1206,7 @@ def oracle_binary(ctx, rep, seg, case, rc, err, rows):
         viol(rep, sig, "delta --side-by-side failed: " + where[:160], replay)
         return
     lsym, rsym, psym = case["syms"]
-    eff_max = 0 if case["wrap_max_lines"] == "unlimited" else int(case["wrap_max_lines"]) + 1
+    eff_max = 0 if wml_rows(case["wrap_max_lines"]) is None else wml_rows(case["wrap_max_lines"]) + 1
     # ---- geometry, row by row
     nfw = number_field_widths(case)
     pl_, pr_ = panel_widths(case)
@@ -1104,8 +1309,20 @@ def oracle_binary(ctx, rep, seg, case, rc, err, rows):
                     nxt = seg.one(rest)[0] if rest else None
                     stuck = emax == 0 and lw_line >= 2 and nxt is not None and nxt[1] + 1 > lw_line
                     if not stuck:
-                        viol(rep, "sbs:truncated-before-wrap-limit",
-                             f"line {num} is cut (→) after {len(frags)} rows, limit {emax or 'none'}, and the next "
+                        # name the class: was the line longer than what the user allowed (--max-line-length)?
+                        mll_opt = opt_value(case["args"], "--max-line-length")
+                        mll_opt = 3000 if mll_opt is None else int(mll_opt)
+                        shown = seg.width(before) + seg.width(vis(pieces[-1]))
+                        tw_ = case.get("term_width")
+                        if emax == 0 and lw_line >= 2:
+                            sig = "sbs:unlimited-wrap-truncated"
+                        elif emax >= 2 and tw_ and width > tw_ and mll_opt > 0 and shown + 1 >= mll_opt:
+                            sig = "sbs:truncated-before-wrap-limit:view-wider-than-terminal"
+                        else:
+                            sig = "sbs:truncated-before-wrap-limit"
+                        viol(rep, sig,
+                             f"line {num} ({seg.width(want) + 1} columns with its prefix; --max-line-length {mll_opt}) is cut (→) "
+                             f"after {shown} columns on row {len(frags)}, limit {emax or 'none'}, and the next "
                              f"cluster {nxt!r} would fit next to the wrap symbol (text width {lw_line})", replay)
                         rep.case(key=key, nontrivial=True)
                         return
@@ -1145,7 +1362,10 @@ def run(ctx, rep):
                 "CJK/emoji-ZWJ/combining/zero-width/tab clusters; wrap.block: random alignments (8% malformed) over "
                 "0-3 lines per side with independent syntax/diff sectionings; truncate/pad_panel: random painted "
                 "strings x widths around the cut; binary: generated two-way diffs x --width 12..140 (even/odd) x "
-                "wrap limits x fill methods x symbols x markers x tab widths. Non-trivial = at least 2 output rows "
+                "wrap limits x fill methods x symbols x markers x tab widths; long hunk lines (around --max-line-length / around "
+                "what the permitted rows hold) x --max-line-length {default,0,20..300} x limits {unlimited,∞,inf,1,2,4} x widths "
+                "below and above the terminal width; maxlen: --side-by-side x 11 --wrap-max-lines values x 11 --max-line-length "
+                "values x widths: Config::max_line_length vs the translated function, probe lines through ingest_line. Non-trivial = at least 2 output rows "
                 "(wrap), a cut (truncate), an odd width (panels), a wrapped line (binary); distinct by request text")
     hook = limited_hook(ctx)
     mdl = ctx.model("drv_wrap") if ctx.drivers_ok else None
@@ -1157,6 +1377,7 @@ def run(ctx, rep):
     part_block(ctx, rep, hook, mdl, seg)
     part_truncate(ctx, rep, hook, mdl, seg)
     part_panels(ctx, rep, hook, mdl)
+    part_maxlen(ctx, rep, hook, mdl)
     part_binary(ctx, rep, seg)
     rep.extra_trusted += ["unicode-segmentation / unicode-width (clusters and widths are taken from the implementation: text.graphemes)",
                           "ANSI element iterator (items of a painted line are taken from the implementation: wrap.ansi_items)",
@@ -1174,7 +1395,13 @@ def replay(ctx, rep, obj):
     seg = Seg(hook)
     op = case.get("op")
     rep.rule = "replay of one recorded case"
-    if op == "delta --side-by-side":
+    if op == "maxlen":
+        case = dict(case, term_width=term_width(hook) or case.get("term_width") or 80,
+                    probes=[tuple(x) for x in case["probes"]])
+        ans = hook.ask(maxlen_requests(case), timeout=60, sticky=[0])
+        m = mdl.ask([maxlen_model_request(case)])[0] if mdl else None
+        judge_maxlen(rep, case, ans, m)
+    elif op == "delta --side-by-side":
         rc, out, err = limited_run_delta(ctx, case["args"], case["diff"].encode("utf-8"), 15)
         rows = []
         text_out = ANSI_RE.sub("", out.decode("utf-8", "replace")) if rc == 0 else ""
@@ -1189,7 +1416,7 @@ def replay(ctx, rep, obj):
                     a[a.index("--wrap-right-prefix-symbol") + 1])
         c2 = dict(op=op, diff=case["diff"], hunks=hunks, ext="?", kind="zw" if ZW in case["diff"] else "mixed",
                   width=case["width"], wrap_max_lines=a[a.index("--wrap-max-lines") + 1], extra=a, syms=syms,
-                  markers="--keep-plus-minus-markers" in a, args=a, _out=text_out)
+                  markers="--keep-plus-minus-markers" in a, args=a, _out=text_out, term_width=term_width(hook))
         oracle_binary(ctx, rep, seg, c2, rc, err.decode("utf-8", "replace"), rows)
     elif "request" in case:
         req = case["request"]
